@@ -231,6 +231,11 @@ class CallMixin:
                 return [ok(v.finfo.name, st)]
         if isinstance(v, Builtin):
             return [ok(self.external_name(f'{v.name}.{attr}'), st)]
+        if v is None:
+            # Python: AttributeError: 'NoneType' object has no attribute ... (an ordinary exception of the program)
+            self.oblige(st, f'safety.not_none.attr_{attr}@{line}', False, kind='safety', line=line,
+                        note=f'attribute {attr} of None')
+            return [rs(ExcV('AttributeError', (f'NoneType.{attr}',)), st)]
         raise EngineError(f'getattr {attr} on {type(v).__name__} at line {line}')
 
     def class_attr(self, cdef, attr, st):
